@@ -281,6 +281,27 @@ def _entities_truthy(rng):
     return None
 
 
+def _argsort(rng):
+    for _ in range(N):
+        n = rng.randint(0, 8)
+        a = np.array([rng.randint(0, 4) + rng.random() * rng.choice([0, 1]) for _ in range(n)])
+        p = np.argsort(a)
+        if sorted(p.tolist()) != list(range(n)) or np.any(np.diff(a[p]) < 0):
+            return "argsort is not a sorting permutation"
+        q = np.argsort(p)
+        if not np.array_equal(p[q], np.arange(n)) or not np.array_equal(q[p], np.arange(n)):
+            return "argsort of a permutation is not its inverse"
+        d = np.diff(a)
+        if len(d) != max(n - 1, 0) or any(d[i] != a[i + 1] - a[i] for i in range(len(d))):
+            return "np.diff"
+        w = rng.randint(1, 3)
+        b = np.arange(w * rng.randint(0, 4))
+        r = b.reshape((-1, w))
+        if any(r[c, j] != b[c * w + j] for c in range(r.shape[0]) for j in range(w)):
+            return "reshape (-1, w)"
+    return None
+
+
 def _truediv(rng):
     for _ in range(N):
         a, b = rng.random() * 10 - 5, rng.choice([0.5, 2.0, 4.0, -8.0])
@@ -294,7 +315,7 @@ AUDITS = [
     ("T-np.mask_select", _mask_select), ("T-np.delete", _delete), ("T-np.vstack", _vstack), ("T-np.ravel C-order of rank-2", _ravel2),
     ("T-np.ravel C-order of rank-3", _ravel3), ("T-np.modf", _modf), ("T-np.astype", _astype), ("T-np.min/max", _extrema), ("T-np.max/min", _extrema),
     ("T-np.meshgrid", _meshgrid), ("T-np.cumsum", _cumsum), ("T-np.sum", _cumsum), ("T-np.fancy assignment", _fancy_assign), ("T-np.divide", _divide),
-    ("T-np.true division", _truediv), ("T-rec.fromarrays", _rec), ("T-py.uuid4", _uuid), ("T-py.str(uuid)", _uuid), ("T-py.UUID(str)", _uuid),
+    ("T-np.true division", _truediv), ("T-np.argsort", _argsort), ("T-np.diff", _argsort), ("T-np.reshape", _argsort), ("T-rec.fromarrays", _rec), ("T-py.uuid4", _uuid), ("T-py.str(uuid)", _uuid), ("T-py.UUID(str)", _uuid),
     ("T-py.str concat", _concat), ("T-py.entities are truthy", _entities_truthy), ("T-h5: a geoh5 file has exactly one", _one_project), ("T-h5", _h5),
 ]
 # names that assume nothing (a function left uninterpreted) or a modelling choice that no test can confirm
